@@ -379,13 +379,30 @@ EndRound ==
                  \/ phase = "reading" /\ p.tail # "none" /\ ndel = NFrames(p)
   /\ UNCHANGED <<pend, round, resid>>
 
-Step ==
-  \/ \E q \in (IF round = 0 THEN Prof1 ELSE Prof2) : Begin(q)
-  \/ Request \/ Script \/ ServerWrite \/ ServerClose \/ ClientRead \/ Upgrade
-  \/ FirstFlush \/ Deliver \/ EndRound
-
-\* a state in which the monitor has rejected is terminal
-Next == bad = "" /\ Step
+\* A state in which the monitor has rejected is terminal (every disjunct is
+\* guarded, and Next is a plain disjunction so that TLC reports coverage per action).
+Live == bad = ""
+BeginAny == Live /\ \E q \in (IF round = 0 THEN Prof1 ELSE Prof2) : Begin(q)
+DoRequest == Live /\ Request
+DoScript == Live /\ Script
+DoServerWrite == Live /\ ServerWrite
+DoServerClose == Live /\ ServerClose
+DoClientRead == Live /\ ClientRead
+DoUpgrade == Live /\ Upgrade
+DoFirstFlush == Live /\ FirstFlush
+DoDeliver == Live /\ Deliver
+DoEndRound == Live /\ EndRound
+Next ==
+  \/ BeginAny
+  \/ DoRequest
+  \/ DoScript
+  \/ DoServerWrite
+  \/ DoServerClose
+  \/ DoClientRead
+  \/ DoUpgrade
+  \/ DoFirstFlush
+  \/ DoDeliver
+  \/ DoEndRound
 
 Spec == Init /\ [][Next]_vars
 
